@@ -353,7 +353,8 @@ def run_case(case):
     obs = {"gap_rel": gap / max(1.0, abs(phis)), "iters": app.alg.iter,
            "dist": nrm(xr.ravel() - xref) / max(1.0, nrm(xref)),
            "y_unchanged": bool(np.array_equal(y, y_keep))}
-    if not gap <= tol * max(1.0, abs(phis)) and eff == "ADMM" and not case.get("_more") \
+    if not gap <= tol * max(1.0, abs(phis)) and eff in ("ADMM", "PrimalDualHybridGradient") \
+            and not case.get("_more") \
             and np.all(np.isfinite(xr)) and gap <= 0.05 * max(1.0, abs(phis)):
         # ADMM's rate depends on rho and on G (with a tall G, no prox and rho = 3 the default
         # budget leaves a gap of 1e-3 that is 1e-14 four budgets later): "returns the
